@@ -15,6 +15,8 @@ func (s *State) DefineMacros(programNode ast.Node) {
 		statement := program.Statements[i]
 		if isMacroDefinition(statement) {
 			addMacro(s.macroState, statement)
+			// Like re-binding a function: what memoized calls did with that name (through eval()) may not hold anymore.
+			s.ResetCache()
 			program.Statements = append(program.Statements[:i], program.Statements[i+1:]...)
 		} else {
 			i++
